@@ -615,6 +615,15 @@ inline void massOpenCase(Ctx& c, long j)
         size_t i = (k * 7919) % n;
         int letter = (k % 9 == 0) ? c17::L_U : ((k % 13 == 0) ? c17::L_X : c17::L_L);
         H.push_back(c17::letterFrame(letter, eps[i], r));
+        // the endpoints whose message was aborted get a stray continuation / last segment later on, while the number of open
+        // reassemblies is still falling through every value (nothing may come of it, in the mixed run as in the projection)
+        if (k >= 40 && ((k - 40) % 9 == 0 || (k - 40) % 13 == 0))
+        {
+            size_t i2 = ((k - 40) * 7919) % n;
+            H.push_back(c17::letterFrame((k % 2) ? c17::L_L : c17::L_M, eps[i2], r));
+            if (k % 2 == 0)
+                H.push_back(c17::letterFrame(c17::L_L, eps[i2], r));
+        }
     }
     checkHistory(c, H, mix64(0x3a55, static_cast<uint64_t>(j)));
     c.count(n >= 65536 ? "histories_with_70000_endpoints_open_at_once" : "histories_with_thousands_of_endpoints_open_at_once");
